@@ -469,9 +469,22 @@ func (t *tr) modifiedIn(f func()) []*Var {
 			}
 		}
 	}
-	check(base)
+	// Blocks that end in a return or a panic are not on any path to the back edge: what they assign (the
+	// result variables of "return x, y" in particular) is not live at the loop head.
+	terminal := map[*Block]bool{}
+	for _, b := range t.returns[s.returns:] {
+		terminal[b] = true
+	}
+	for _, b := range t.panics[s.panics:] {
+		terminal[b] = true
+	}
+	if !terminal[base] {
+		check(base)
+	}
 	for _, b := range t.blocks[startBlocks:] {
-		check(b)
+		if !terminal[b] {
+			check(b)
+		}
 	}
 	t.dry--
 	newVars := map[*Var]bool{}
@@ -514,6 +527,7 @@ func (t *tr) loopHead(k int, pos token.Pos, body func(), alias map[string]*Var) 
 		_ = entryOld
 		return sc
 	}
+	t.loopEntry[k] = t.cur.Env.clone()
 	for _, c := range invs {
 		sc := mkCtx()
 		sc.where = c.Where
